@@ -23,7 +23,7 @@ for blk in blocks:
         for f in files:
             fp = os.path.join(root, f)
             rel = os.path.relpath(fp, src)
-            if rel in ('patch.diff', 'notes.md') or os.path.getsize(fp) > 150000 or f.endswith(('.o', '.rlib', '.bin', '.rmeta', '.so', '.a', '.log')): continue
+            if rel in ('patch.diff', 'notes.md') or os.path.islink(fp) or not os.path.exists(fp) or os.path.getsize(fp) > 150000 or f.endswith(('.o', '.rlib', '.bin', '.rmeta', '.so', '.a', '.log')): continue
             out = os.path.join(dst, 'demo', rel); os.makedirs(os.path.dirname(out), exist_ok=True); shutil.copy(fp, out)
     viol = re.findall(r'^VIOLATION .*$', blk, re.M)
     first = re.search(r'first: (.*)', blk); inp = re.search(r'input: (.*)', blk)
